@@ -298,3 +298,275 @@ Proof.
   rewrite E. unfold row_weights, v'. destruct (wt r); auto.
   assert (D := vdot_div_mass F v mws). unfold to_mass in D. rewrite D; auto. lia.
 Qed.
+
+(* ====================================================================================== *)
+(* when exactly each basis raises InfeasibleRegion *)
+Lemma react_parts_err b : forall ps m e, snd (react_parts b ps m) = Some e -> e = ERuntime.
+Proof.
+  induction ps as [|[pb s] ps IH]; intros m e; simpl; [discriminate|].
+  destruct (Bool.eqb pb b); [apply IH|]. simpl. congruence.
+Qed.
+
+Lemma react_obj_err o m e : snd (react_obj o m) = Some e -> e = ERuntime.
+Proof. destruct o as [b s|b ps]; simpl; [discriminate|apply react_parts_err]. Qed.
+
+Lemma process_raises_iff o v :
+  fst (process o v) = Some EInfeasible <->
+  snd (react_obj o v) = None /\ neg_sum (fst (react_obj o v)) < - eps.
+Proof.
+  unfold process. destruct (react_obj o v) as [v1 [e|]] eqn:R; simpl.
+  - assert (E : e = ERuntime) by (apply (react_obj_err o v); rewrite R; reflexivity). subst e.
+    split; [discriminate|]. intros (H & _); discriminate.
+  - destruct (qltb (neg_sum v1) (- eps)) eqn:Q; simpl.
+    + apply qltb_true in Q. split; auto.
+    + apply qltb_false in Q. split; [discriminate|]. intros (_ & H). lra.
+Qed.
+
+Lemma process_returns_iff o v :
+  fst (process o v) = None <->
+  snd (react_obj o v) = None /\ - eps <= neg_sum (fst (react_obj o v)).
+Proof.
+  unfold process. destruct (react_obj o v) as [v1 [e|]] eqn:R; simpl.
+  - split; [discriminate|]. intros (H & _); discriminate.
+  - destruct (qltb (neg_sum v1) (- eps)) eqn:Q; simpl.
+    + apply qltb_true in Q. split; [discriminate|]. intros (_ & H). lra.
+    + apply qltb_false in Q. split; auto.
+Qed.
+
+Lemma call_stream_fst w o mol : fst (call_stream w o mol) = fst (process o (buffer o w mol)).
+Proof.
+  unfold call_stream, buffer, via_mass. destruct (obasis o); auto.
+  destruct (process o (to_mass w mol)) as [[e|] v]; reflexivity.
+Qed.
+
+Lemma stream_raises_iff w o mol :
+  fst (call_stream w o mol) = Some EInfeasible <->
+  snd (react_obj o (buffer o w mol)) = None /\ neg_sum (fst (react_obj o (buffer o w mol))) < - eps.
+Proof. rewrite call_stream_fst. apply process_raises_iff. Qed.
+
+Lemma stream_returns_iff w o mol :
+  fst (call_stream w o mol) = None <->
+  snd (react_obj o (buffer o w mol)) = None /\ - eps <= neg_sum (fst (react_obj o (buffer o w mol))).
+Proof. rewrite call_stream_fst. apply process_returns_iff. Qed.
+
+(* the negatives of the mass buffer are the molar negatives weighted by the molecular weights *)
+Definition wneg_sum (w v : vec) : Q := qsum (map2 (fun wi x => wi * Qmin x 0) w v).
+
+Lemma wneg_sum_cons a w x v : wneg_sum (a :: w) (x :: v) = a * Qmin x 0 + wneg_sum w v.
+Proof. reflexivity. Qed.
+
+Lemma qmin_scale a x : 0 <= a -> Qmin (a * x) 0 == a * Qmin x 0.
+Proof.
+  intros Ha. destruct (Qlt_le_dec x 0) as [Lt|Ge].
+  - rewrite (Q.min_l x 0) by lra. rewrite Q.min_l; [reflexivity|nra].
+  - rewrite (Q.min_r x 0) by lra. rewrite Q.min_r; [ring|nra].
+Qed.
+
+Lemma neg_sum_scaled : forall v1 v2 w, length v2 = length v1 -> length w = length v1 ->
+  (forall i, nthq v2 i == nthq w i * nthq v1 i) -> (forall i, 0 <= nthq w i) ->
+  neg_sum v2 == wneg_sum w v1.
+Proof.
+  induction v1 as [|x v1 IH]; intros v2 w L2 Lw Hs Pw.
+  - destruct v2; [|discriminate]. destruct w; [|discriminate]. reflexivity.
+  - destruct v2 as [|y v2]; [discriminate|]. destruct w as [|a w]; [discriminate|].
+    simpl in L2, Lw. rewrite neg_sum_cons, wneg_sum_cons.
+    assert (I : neg_sum v2 == wneg_sum w v1).
+    { apply IH; try lia; intros i; [exact (Hs (S i)) | exact (Pw (S i))]. }
+    assert (S0 := Hs O). assert (P0 := Pw O). unfold nthq in S0, P0. simpl in S0, P0.
+    rewrite I, S0, qmin_scale by exact P0. reflexivity.
+Qed.
+
+Lemma wneg_sum_bounds lo hi : forall w v, length w = length v ->
+  Forall (fun x => lo <= x /\ x <= hi) w -> 0 <= lo ->
+  hi * neg_sum v <= wneg_sum w v /\ wneg_sum w v <= lo * neg_sum v.
+Proof.
+  induction w as [|a w IH]; intros v L B Hlo.
+  - destruct v; [|discriminate]. unfold wneg_sum, neg_sum. simpl. lra.
+  - destruct v as [|x v]; [discriminate|]. simpl in L. inversion B as [|? ? (A1 & A2) B']; subst.
+    rewrite neg_sum_cons, wneg_sum_cons.
+    destruct (IH v) as (I1 & I2); auto.
+    assert (M : Qmin x 0 <= 0) by apply Q.le_min_r. split; nra.
+Qed.
+
+Lemma threshold_lemma w o o' mol :
+  obj_wt_of w o o' -> length w = length mol -> Forall (fun x => 0 < x) w ->
+  Forall (wf (length mol)) (obj_members o) ->
+  let v := fst (react_obj o mol) in
+  snd (react_obj o' (to_mass w mol)) = snd (react_obj o mol) /\
+  (fst (call_stream w o mol) = Some EInfeasible <-> snd (react_obj o mol) = None /\ neg_sum v < - eps) /\
+  (fst (call_stream w o' mol) = Some EInfeasible <-> snd (react_obj o mol) = None /\ wneg_sum w v < - eps) /\
+  (forall lo hi, Forall (fun x => lo <= x /\ x <= hi) w -> 0 <= lo ->
+     hi * neg_sum v <= wneg_sum w v /\ wneg_sum w v <= lo * neg_sum v).
+Proof.
+  intros H L Pw W v.
+  assert (O1 : obasis o = false) by (destruct H; reflexivity).
+  assert (O2 : obasis o' = true) by (destruct H; reflexivity).
+  assert (Sc := obj_scaled w o o' mol (to_mass w mol) H (to_mass_scaled w mol L) W).
+  destruct Sc as (Ls & Sv).
+  assert (Lv : length v = length mol).
+  { destruct (react_obj_conserves o mol [] W) as (Lv & _); auto.
+    apply Forall_forall. intros r _. unfold balanced. rewrite vdot_nil_l. lra. }
+  assert (NS : neg_sum (fst (react_obj o' (to_mass w mol))) == wneg_sum w v).
+  { apply neg_sum_scaled; auto; try lia. apply forall_pos_nthq; auto. }
+  assert (SE : snd (react_obj o' (to_mass w mol)) = snd (react_obj o mol)).
+  { destruct H as [s s' Hs|ps ps' Hps]; simpl; auto.
+    clear - Hps. generalize mol (to_mass w mol). induction Hps as [|[b s] [b' s'] ps ps' (Hb & Hb' & _) _ IH]; intros m1 m2; simpl; auto.
+    simpl in Hb, Hb'. subst. simpl. apply IH. }
+  split; auto. split; [|split].
+  - rewrite stream_raises_iff. unfold buffer. rewrite O1. reflexivity.
+  - rewrite stream_raises_iff. unfold buffer. rewrite O2, SE, NS. reflexivity.
+  - intros lo hi B Hlo. apply wneg_sum_bounds; auto. lia.
+Qed.
+
+(* ====================================================================================== *)
+(* full state after a call on another package *)
+Lemma remap_from_st_spec : forall tbl d acc,
+  match remap_from tbl d acc with
+  | Ok r => remap_from_st tbl d acc = (r, false)
+  | Err e => e = EKey /\ snd (remap_from_st tbl d acc) = true
+  end.
+Proof.
+  induction tbl as [|t tbl IH]; intros d acc; simpl; auto.
+  destruct d as [|x d]; simpl; auto.
+  destruct (qzerob x); [apply IH|]. destruct t as [i|]; [apply IH|]. simpl. auto.
+Qed.
+
+Lemma other_full_refines w o nA fwd bwd mol :
+  fst (fst (call_other_full w o nA fwd bwd mol)) = fst (call_other w o nA fwd bwd mol) /\
+  (fst (call_other w o nA fwd bwd mol) = None ->
+   call_other_full w o nA fwd bwd mol = (None, snd (call_other w o nA fwd bwd mol), false)).
+Proof.
+  unfold call_other_full, call_other, remap.
+  assert (F := remap_from_st_spec fwd mol (vzero nA)).
+  destruct (remap_from fwd mol (vzero nA)) as [a|e].
+  - rewrite F. destruct (call_stream w o a) as [[e|] a'] eqn:C; simpl; [split; [auto|discriminate]|].
+    assert (B := remap_from_st_spec bwd a' (vzero (length mol))).
+    destruct (remap_from bwd a' (vzero (length mol))) as [b|e].
+    + rewrite B. simpl. auto.
+    + destruct B as (-> & B). destruct (remap_from_st bwd a' (vzero (length mol))) as [b f]. simpl in B. subst f.
+      simpl. split; [auto|discriminate].
+  - destruct F as (-> & F). destruct (remap_from_st fwd mol (vzero nA)) as [a f]. simpl in F. subst f.
+    simpl. split; [auto|discriminate].
+Qed.
+
+(* an exception raised by the reaction itself (InfeasibleRegion, RuntimeError of a mixed system) leaves the stream
+   holding data laid out on the REACTION's package: untouched remapped flows on a weight basis, the reacted
+   (partly reacted) buffer on a molar basis; every functional annihilated by the members reads the same on it *)
+Lemma other_full_exception w o nA fwd bwd mol e d lay aA aB :
+  NoDup (targets fwd) -> (forall i, In i (targets fwd) -> (i < nA)%nat) ->
+  length fwd = length mol -> length aB = length mol -> length aA = nA ->
+  (forall j i, nth j fwd (Some O) = Some i -> (j < length fwd)%nat -> nthq aA i == nthq aB j) ->
+  Forall (wf nA) (obj_members o) -> Forall (balanced aA) (obj_members o) ->
+  call_other_full w o nA fwd bwd mol = (Some e, d, lay) -> e <> EKey ->
+  lay = true /\ length d = nA /\ vdot aA d == vdot aB mol /\
+  exists a, remap nA fwd mol = Ok a /\
+    d = (if obasis o then a else fst (react_obj o a)).
+Proof.
+  intros NDf Bf Lf LaB LaA Cf W B. unfold call_other_full.
+  assert (F := remap_from_st_spec fwd mol (vzero nA)). fold (remap nA fwd mol) in F.
+  destruct (remap nA fwd mol) as [a|e0] eqn:Rf.
+  2:{ destruct F as (-> & F). destruct (remap_from_st fwd mol (vzero nA)) as [a f]. simpl in F. subst f.
+      intros H; inversion H; subst. congruence. }
+  rewrite F.
+  destruct (remap_dot aA nA fwd mol a NDf Bf Rf) as (La & Da).
+  assert (Base : vdot aA a == vdot aB mol).
+  { rewrite Da. apply vdot_agree; [unfold wmap; rewrite map_length; congruence|].
+    intros j Nz. rewrite nthq_wmap.
+    destruct (Nat.lt_ge_cases j (length fwd)) as [Lt|Ge].
+    + rewrite (nth_error_nth_some fwd j (Some O) Lt).
+      destruct (nth j fwd (Some O)) as [i|] eqn:E.
+      * apply (Cf j i E Lt).
+      * exfalso. apply Nz. unfold remap in Rf. exact (remap_from_none _ _ _ _ Rf j E).
+    + exfalso. apply Nz. unfold nthq. rewrite nth_overflow; [lra|lia]. }
+  destruct (call_stream w o a) as [[e1|] a'] eqn:C.
+  - intros H; inversion H; subst; clear H. intros _. split; auto.
+    unfold call_stream, via_mass in C. destruct (obasis o) eqn:Ob.
+    + assert (Ed : d = a) by (destruct (process o (to_mass w a)) as [[e2|] v2]; inversion C; auto).
+      subst d. split; [exact La|]. split; [exact Base|]. exists a. auto.
+    + unfold process in C. rewrite <- La in W.
+      destruct (react_obj_conserves o a aA W B) as (Lr & Dr).
+      assert (Ed : d = fst (react_obj o a)).
+      { destruct (react_obj o a) as [v1 [e2|]] eqn:R; simpl in *; [inversion C; auto|].
+        destruct (qltb (neg_sum v1) (- eps)); inversion C; auto. }
+      subst d. split; [lia|]. split; [rewrite Dr; exact Base|]. exists a. auto.
+  - destruct (remap_from_st bwd a' (vzero (length mol))) as [b [|]]; intros H; inversion H; subst. congruence.
+Qed.
+
+(* ====================================================================================== *)
+(* force_reaction *)
+Lemma remove_negligible_nonneg v : nonneg v -> remove_negligible v = v.
+Proof.
+  intros Nn. unfold remove_negligible.
+  assert (E : neg_vals v = []).
+  { unfold neg_vals. assert (H : forall i, 0 <= nthq v i) by exact Nn. clear Nn.
+    induction v as [|x v IH]; auto. simpl.
+    assert (H0 := H O). unfold nthq in H0; simpl in H0.
+    destruct (qltb x 0) eqn:Q; [apply qltb_true in Q; lra|]. apply IH. intros i. exact (H (S i)). }
+  rewrite E. reflexivity.
+Qed.
+
+Lemma force_feasible o v : snd (react_obj o v) = None -> nonneg (fst (react_obj o v)) ->
+  force_process o v = (None, fst (react_obj o v)) /\ process o v = (None, fst (react_obj o v)).
+Proof.
+  intros S Nn. unfold force_process, process. destruct (react_obj o v) as [v1 e]. simpl in *. subst e.
+  rewrite (remove_negligible_nonneg v1 Nn). split; auto.
+  assert (Z : neg_sum v1 == 0).
+  { unfold neg_sum. assert (H : forall i, 0 <= nthq v1 i) by exact Nn. clear Nn. induction v1 as [|x v1 IH]; simpl; [lra|].
+    assert (H0 := H O). unfold nthq in H0; simpl in H0. rewrite Q.min_r by lra.
+    rewrite IH; [lra|]. intros i. exact (H (S i)). }
+  destruct (qltb (neg_sum v1) (- eps)) eqn:Q.
+  - apply qltb_true in Q. destruct eps_value as (_ & E). lra.
+  - rewrite (clampv_id v1 Nn). reflexivity.
+Qed.
+
+(* ====================================================================================== *)
+(* conversion *)
+Lemma conv_parallel_spec feed : forall rs acc m, length acc = length m -> Forall (wf (length m)) rs ->
+  length (conv_parallel_from feed rs acc) = length m /\
+  forall i, nthq (react_parallel_from feed rs m) i - nthq m i == nthq (conv_parallel_from feed rs acc) i - nthq acc i.
+Proof.
+  induction rs as [|r rs IH]; intros acc m L W; simpl.
+  - split; auto. intros; lra.
+  - inversion W as [|? ? Wr Wrs]; subst. unfold wf in Wr.
+    destruct (IH (vadd acc (vscale (nthq feed (ridx r) * X r) (st r))) (vadd m (vscale (nthq feed (ridx r) * X r) (st r)))) as (L' & D').
+    + rewrite !vadd_length; rewrite ?vscale_length; lia.
+    + rewrite vadd_length by (rewrite vscale_length; lia). exact Wrs.
+    + rewrite vadd_length in L' by (rewrite vscale_length; lia). split; auto.
+      intros i. specialize (D' i). rewrite !nthq_vadd in D' by (rewrite vscale_length; lia). lra.
+Qed.
+
+Lemma conv_obj_spec o m c : Forall (wf (length m)) (obj_members o) -> conv_obj o m = Ok c ->
+  length c = length m /\ forall i, nthq c i == nthq (fst (react_obj o m)) i - nthq m i.
+Proof.
+  intros W. destruct o as [b s|b ps]; simpl.
+  - intros H; inversion H; subst; clear H. destruct s as [r|rs|rs]; simpl in *.
+    + inversion W as [|? ? Wr _]; subst. unfold wf in Wr. unfold conv_single, react.
+      split; [rewrite vscale_length; auto|]. intros i. rewrite nthq_vadd by (rewrite vscale_length; lia). lra.
+    + unfold react_parallel. destruct (conv_parallel_spec m rs (vscale 0 m) m) as (L & D); auto.
+      { apply vscale_length. }
+      split; auto. intros i. specialize (D i). rewrite nthq_vscale in D. lra.
+    + destruct (series_spec rs m W) as (L & _). fold (react_series rs m) in L.
+      split; [unfold vsub; rewrite map2_length; lia|]. intros i. rewrite nthq_vsub by lia. lra.
+  - destruct (parts_spec b ps m W) as (L & _).
+    destruct (react_parts b ps m) as [f [e|]]; simpl in *; [discriminate|].
+    intros H; inversion H; subst; clear H.
+    split; [unfold vsub; rewrite map2_length; lia|]. intros i. rewrite nthq_vsub by lia. lra.
+Qed.
+
+Lemma vdot_sub_pointwise : forall (a c u v : vec), length c = length v -> length u = length v ->
+  (forall i, nthq c i == nthq u i - nthq v i) -> vdot a c == vdot a u - vdot a v.
+Proof.
+  induction a as [|x a IH]; intros c u v Lc Lu H; [rewrite !vdot_nil_l; lra|].
+  destruct c as [|c0 c]; destruct u as [|u0 u]; destruct v as [|v0 v]; simpl in *; try discriminate;
+    [rewrite !vdot_nil_r; lra|].
+  rewrite !vdot_cons. rewrite (IH c u v) by (try lia; intros i; exact (H (S i))).
+  assert (H0 := H O). unfold nthq in H0; simpl in H0. rewrite H0. ring.
+Qed.
+
+Lemma conversion_balanced o m c a : Forall (wf (length m)) (obj_members o) -> Forall (balanced a) (obj_members o) ->
+  conv_obj o m = Ok c -> vdot a c == 0.
+Proof.
+  intros W B C. destruct (conv_obj_spec o m c W C) as (L & D).
+  destruct (react_obj_conserves o m a W B) as (Lr & Dr).
+  rewrite (vdot_sub_pointwise a c (fst (react_obj o m)) m L Lr D). lra.
+Qed.
